@@ -95,6 +95,21 @@ def add_child(kind, obj, i):
         obj.append(odml.Section(name="c%d" % i, type="t"))
 
 
+def merge_more(kind, obj, i):
+    """Merge a source into obj that brings two more children of the counted kind."""
+    import odml
+    if kind == "values":
+        obj.merge(odml.Property(name=obj.name, values=[1000 + i, 2000 + i], dtype="int"))
+    else:
+        src = odml.Section(name=obj.name, type=obj.type)
+        for j in (0, 1):
+            if kind == "properties":
+                src.append(odml.Property(name="m%d_%d" % (i, j), values=[1]))
+            else:
+                src.append(odml.Section(name="m%d_%d" % (i, j), type="t"))
+        obj.merge(src)
+
+
 def remove_child(kind, obj):
     if kind == "values":
         obj.remove(obj.values[-1])
@@ -195,7 +210,7 @@ def gen_cases(tier):
 
 
 HIST_OPS = [("set", {"t": [1, 2]}), ("set", {"t": [2, None]}), ("set", {"t": [None, 1]}), ("set", None),
-            ("set", {"t": [2, 2]}), ("add", None), ("remove", None), ("clear", None), ("add-other", None)]
+            ("set", {"t": [2, 2]}), ("add", None), ("remove", None), ("clear", None), ("add-other", None), ("merge-more", None)]
 
 
 def run_case(case):
@@ -330,6 +345,14 @@ def run_history(case):
                         add_child(kind, obj, serial[0])
                         if count_of(kind, obj) != cnt + 1:
                             raise AssertionError("child not added")
+                    elif op == "merge-more":
+                        # children arriving through a (strict) merge: two values / two children the object does not have
+                        if cnt >= 3:
+                            continue
+                        serial[0] += 2
+                        merge_more(kind, obj, serial[0])
+                        if count_of(kind, obj) != cnt + 2:
+                            raise AssertionError("merge did not add the two children")
                     elif op == "add-other":
                         if kind == "values":
                             continue
